@@ -128,7 +128,8 @@ Definition homes_violations (c_dump c_layer : list dentry)
 
 (* A configured field that holds ':' or a newline (or a name starting / a last
    field ending with a blank) is written verbatim and the file no longer reads
-   back as old ++ configured: that failure carries its own tag (finding C13-F5)
+   back as old ++ configured: that failure carries its own tag (was finding C13-F5;
+   Validate refuses such fields since fix 3dfd539, the tag stays armed)
    when Validate accepted the configuration; a configuration Validate refuses
    never reaches mutateAccounts in a build.  Clean configurations keep the
    generic tags. *)
